@@ -402,6 +402,19 @@ func (c *c07v) settle() bool {
 		s.Fail("C07.countersigned-unsafe@"+cr.class+"/"+why, "the hub countersigned a %s update (%s by %s) that is not acceptable: %s", cr.class, cr.mut, cr.who, why)
 		return false
 	}
+	// whatever the hub refused must have left its channels untouched: the state
+	// a controller holds in memory is the last one it enabled (a validator that
+	// edits the live state while judging a proposal changes what later updates
+	// are compared with)
+	for _, hc := range []*client.Channel{t.chAH[1], t.chBH[1]} {
+		if l := t.H.Rec.EnabledOf(hc.ID()); len(l) > 0 {
+			if cur := hc.State(); !bytes.Equal(gen.EncodeState(cur), l[len(l)-1].Enc) {
+				s.Fail("C07.current-state-changed-without-update", "the hub's current state of %s (v%d) is not the state it enabled last: it changed without any update being countersigned (after a %s %s by %s)",
+					s.ChanName(hc.ID()), cur.Version, cr.class, cr.mut, cr.who)
+				return false
+			}
+		}
+	}
 	// continue only if everybody is still in sync
 	for _, pr := range [][2]*client.Channel{t.chAH, t.chBH} {
 		a, h := pr[0].State(), pr[1].State()
